@@ -300,7 +300,7 @@ class USD:
         :type param: byte"""
         binary_string = bin(param)[2:].zfill(8)
 
-        self.delayed_execution = bool(binary_string[0])
+        self.delayed_execution = binary_string[0] == '1'
         # binary_string[1] is currently unused
 
         self.trigger_io_enable[0] = int(binary_string[7], 2)
